@@ -28,10 +28,35 @@ TRUSTED = [
 ]
 
 TOKENS = ["a", "b", ".", "%a", "%d", "[ab]", "[^a]", "[a-b]", "*", "+", "-", "?", "^", "$", "(", ")", "()",
-          "%1", "%bab", "%f[a]", "%%"]
+          "%1", "%bab", "%f[a]", "%%", "[c-a]"]        # last: a reversed range (denotes the empty set)
 QUANT = {"*", "+", "-", "?"}
 REPLS = ["x", "", "%0", "%1", "<%1>", "%%", "%2", "%1%0", "x%", "%y"]
 BIG = 1 << 40
+# 4th argument of gsub: absent / integers incl. negative, 0, min- and maxinteger / floats with and without integer value
+NTOKS = ["A"] * 12 + ["i0", "i1", "i1", "i2", "i3", "i-1", "i-2", "i-8000000000000000", "i7fffffffffffffff",
+                      "f2.0", "f1.0", "f0.0", "f-1.0", "f1.5", "f-0.5"]
+
+
+def ntok(v):
+    """legacy ints (-1 = absent) or ready-made tokens"""
+    if isinstance(v, str):
+        return v
+    if v is None or v == -1:
+        return "A"
+    return "i%x" % v if v >= 0 else "i-%x" % (-v)
+
+
+def nlua(tok):
+    if tok == "A":
+        return ""
+    if tok[0] == "i":
+        v = int(tok[1:], 16)
+        return ", math.mininteger" if v == -(1 << 63) else ", %d" % v
+    return ", " + tok[1:]
+
+
+def pick_n(rng):
+    return NTOKS[rng.below(len(NTOKS))]
 REF_EVERY = 3
 
 
@@ -79,23 +104,23 @@ class Case:
 
     def __init__(self, ptn, s, init, repl=b"x", maxn=-1, bud=BIG, mode="a", kind="enum", tokens=None):
         self.ptn, self.s, self.init, self.repl, self.maxn, self.bud, self.mode, self.kind, self.tokens = \
-            ptn, s, init, repl, maxn, bud, mode, kind, tokens
+            ptn, s, init, repl, ntok(maxn), bud, mode, kind, tokens
         # compared with reference PUC-Lua too?  (not the malformed stream; not descending ranges, which the manual leaves open)
-        self.ref = mode == "a" and kind != "malformed-stream" and b"[b-a]" not in ptn and len(ptn) < 200
+        self.ref = mode == "a" and kind != "malformed-stream" and len(ptn) < 200
 
     def line(self, i):
-        return "k%d %s %s %d %s %d %d %s" % (i, hx(self.ptn), hx(self.s), self.init, hx(self.repl), self.maxn,
+        return "k%d %s %s %d %s %s %d %s" % (i, hx(self.ptn), hx(self.s), self.init, hx(self.repl), self.maxn,
                                              self.bud, self.mode)
 
     def canon(self):
-        return "%s|%s|%d|%s|%d|%d|%s" % (hx(self.ptn), hx(self.s), self.init, hx(self.repl), self.maxn, self.bud, self.mode)
+        return "%s|%s|%d|%s|%s|%d|%s" % (hx(self.ptn), hx(self.s), self.init, hx(self.repl), self.maxn, self.bud, self.mode)
 
     def desc(self):
         return {"pattern": self.ptn.decode("latin-1"), "subject": self.s.decode("latin-1"), "init_0based": self.init,
                 "repl": self.repl.decode("latin-1"), "maxn": self.maxn, "budget": self.bud, "kind": self.kind,
                 "lua": "string.find/match/gmatch(%r, %r, %d); string.gsub(%r, %r, %r%s)" % (
                     self.s.decode("latin-1"), self.ptn.decode("latin-1"), self.init + 1, self.s.decode("latin-1"),
-                    self.ptn.decode("latin-1"), self.repl.decode("latin-1"), "" if self.maxn < 0 else ", %d" % self.maxn)}
+                    self.ptn.decode("latin-1"), self.repl.decode("latin-1"), nlua(self.maxn))}
 
 
 def fields(line):
@@ -130,7 +155,7 @@ def gen_cases(ck, tier):
                     cases.append(Case(t[0].encode("latin-1").decode("unicode_escape").encode("latin-1"),
                                       t[1].encode("latin-1").decode("unicode_escape").encode("latin-1"),
                                       int(t[2]), t[3].encode("latin-1").decode("unicode_escape").encode("latin-1") if len(t) > 3 else b"x",
-                                      int(t[4]) if len(t) > 4 else -1, BIG, "a", "corpus"))
+                                      (t[4] if t[4][:1] in "Aif" else int(t[4])) if len(t) > 4 else -1, BIG, "a", "corpus"))
     # ---- exhaustive small domain
     quick = tier == "quick"
     subj_all = subjects(5)
@@ -150,12 +175,12 @@ def gen_cases(ck, tier):
                     continue
                 for s in subj_small:
                     for init in range(0, len(s) + 2):
-                        cases.append(Case(ptn, s, init, pick_repl(rng), rng.choice([-1, -1, -1, 0, 1, 2]),
+                        cases.append(Case(ptn, s, init, pick_repl(rng), pick_n(rng),
                                           pick_budget(rng), "a", "enum%d" % n, toks))
                 # longer subjects, sampled
                 for _ in range(6 if quick else 60):
                     s = subj_all[40 + rng.below(len(subj_all) - 40)]
-                    cases.append(Case(ptn, s, rng.below(len(s) + 2), pick_repl(rng), rng.choice([-1, -1, 1, 2]),
+                    cases.append(Case(ptn, s, rng.below(len(s) + 2), pick_repl(rng), pick_n(rng),
                                       pick_budget(rng), "a", "enum%d-long" % n, toks))
             else:
                 num, den = (rate3 if n == 3 else rate4)
@@ -168,12 +193,12 @@ def gen_cases(ck, tier):
                     continue
                 for _ in range(per_pat3 if n == 3 else per_pat4):
                     s = subj_all[rng.below(len(subj_all))]
-                    cases.append(Case(ptn, s, rng.below(len(s) + 2), pick_repl(rng), rng.choice([-1, -1, -1, 1, 2]),
+                    cases.append(Case(ptn, s, rng.below(len(s) + 2), pick_repl(rng), pick_n(rng),
                                       pick_budget(rng), "a", "enum%d" % n, toks))
     # ---- random longer patterns / subjects over a wider alphabet
     nrand = 4000 if quick else 150000
     wide = TOKENS + ["c", "%s", "%w", "%x", "%u", "%l", "%p", "%c", "%g", "%A", "%D", "%S", "[%a_]", "[^%d]", "[]]", "[^]a]", "[a-]",
-                     "[%]]", "%.", "%(", "%2", "%bcc", "%f[%w]", "%f[^a]", "[b-a]", "\x00", "%z", " ", "1", "A", "_"]
+                     "[%]]", "%.", "%(", "%2", "%bcc", "%f[%w]", "%f[^a]", "[b-a]", "[z-a]", "[^b-a]", "[a-a]", "[%a-]", "\x00", "%z", " ", "1", "A", "_"]
     salpha = b"abcabc1A _()\x00\xff."
     for _ in range(nrand):
         n = 1 + rng.geometric(5, 12)
@@ -181,7 +206,7 @@ def gen_cases(ck, tier):
         ptn = "".join(toks).encode("latin-1")
         sl = rng.geometric(7, 24)
         s = bytes(salpha[rng.below(len(salpha))] if rng.chance(1, 4) else b"ab"[rng.below(2)] for _ in range(sl))
-        cases.append(Case(ptn, s, rng.below(len(s) + 2), pick_repl(rng), rng.choice([-1, -1, -1, 0, 1, 3]),
+        cases.append(Case(ptn, s, rng.below(len(s) + 2), pick_repl(rng), pick_n(rng),
                           pick_budget(rng), "a", "random"))
     # ---- malformed stream: arbitrary bytes biased to the magic characters
     nmal = 3000 if quick else 100000
@@ -241,7 +266,13 @@ def compare_ref(case, G, O, R, sanchor):
         sp = O.get(key, "|").split("|")[1]
         r = R.get(key)
         if r is not None and r != sp:
-            out.append((key, "Spec %s vs reference Lua %s" % (sp, r)))
+            if G.get(key) == r:
+                # the implementation agrees with reference Lua: the specification model is the one in error
+                out.append(("s-ref", key, "Spec %s vs reference Lua %s" % (sp, r)))
+            else:
+                # neither does the implementation: a deviation in a part the specification model takes over from
+                # the implementation model (contents of character sets) -- reference Lua is the oracle
+                out.append(("go-ref", key, "%s vs reference Lua %s (specification model: %s)" % (G.get(key), r, sp)))
     return out
 
 
@@ -358,8 +389,8 @@ def evaluate(ck, gvh, oracle, cases, stats, report=True, reflua=None):
         probs, hits, built = compare(ck, c, G, O, stats)
         if built and gid in refres:
             stats["reference-lua-compared"] = stats.get("reference-lua-compared", 0) + 1
-            for fld, det in compare_ref(c, G, O, refres[gid], G.get("B", "").split(":")[2][0] == "1"):
-                probs.append(("s-ref", fld, det))
+            for kind, fld, det in compare_ref(c, G, O, refres[gid], G.get("B", "").split(":")[2][0] == "1"):
+                probs.append((kind, fld, det))
         nontriv = built and (G.get("MM", "nil").startswith("c") or G.get("MS", "nil").startswith("c"))
         ck.case(c.canon(), nontriv or not built)
         ck.count("kind:" + c.kind)
@@ -406,8 +437,8 @@ def shrink_case(gvh, oracle, ck, case, kind, field):
             cands.append(Case(cur.ptn[:i] + cur.ptn[i + 1:], cur.s, cur.init, cur.repl, cur.maxn, cur.bud, cur.mode, cur.kind, None))
         if cur.init > 0:
             cands.append(Case(cur.ptn, cur.s, cur.init - 1, cur.repl, cur.maxn, cur.bud, cur.mode, cur.kind, None))
-        if cur.maxn >= 0:
-            cands.append(Case(cur.ptn, cur.s, cur.init, cur.repl, -1, cur.bud, cur.mode, cur.kind, None))
+        if cur.maxn != "A":
+            cands.append(Case(cur.ptn, cur.s, cur.init, cur.repl, "A", cur.bud, cur.mode, cur.kind, None))
         if cur.repl != b"x":
             cands.append(Case(cur.ptn, cur.s, cur.init, b"x", cur.maxn, cur.bud, cur.mode, cur.kind, None))
         if cur.bud not in (0, BIG):
@@ -507,6 +538,18 @@ def run(tier, seed):
                       "case": small.desc(), "case_line": small.line(0), "impl": g[0] if g else None, "model": o[0] if o else None,
                       "original_case": cases[i].desc(), "count_of_such_differences": len([1 for _, q in go_s if q[1] == p[1]]),
                       "theorem": "Spec (Pattern/Spec.v) is the manual's matcher; C15_spec_* state its sanity"})
+    go_ref = [(i, p) for i, p in probs if p[0] == "go-ref" and i >= 0]
+    seen_ref = set()
+    for i, p in go_ref:
+        if p[1] in seen_ref:
+            continue
+        seen_ref.add(p[1])
+        # smallest such case by pattern + subject length
+        j, q = min([(j, q) for j, q in go_ref if q[1] == p[1]], key=lambda t: (len(cases[t[0]].ptn) + len(cases[t[0]].s), len(cases[t[0]].ptn)))
+        ck.violation("%s deviates from reference Lua / the manual: %s" % (FN.get(q[1], q[1]), q[2][:200]),
+                     {"kind": "Go!=reference", "engine": "pattern", "function": FN.get(q[1], q[1]), "case": cases[j].desc(),
+                      "case_line": cases[j].line(0), "detail": q[2], "count_of_such_differences": len([1 for _, r in go_ref if r[1] == q[1]])})
+    ck.cov["go_vs_reference_lua_differences"] = len(go_ref)
     s_ref = [(i, p) for i, p in probs if p[0] == "s-ref"]
     if s_ref:
         i, p = s_ref[0]
@@ -515,7 +558,7 @@ def run(tier, seed):
                      {"kind": "S!=reference", "field": p[1], "detail": p[2], "case": cases[i].desc() if i >= 0 else None,
                       "case_line": cases[i].line(0) if i >= 0 else None, "differences": len(s_ref)}, no_input=True)
     ck.cov["spec_vs_reference_lua_differences"] = len(s_ref)
-    if go_im and not go_s:
+    if go_im and not go_s and not go_ref:
         i, p = go_im[0]
         c = cases[i] if i >= 0 else None
         small = shrink_case(gvh, oracle, ck, c, "go-im", p[1]) if c else None
